@@ -6,7 +6,11 @@ use des_cqueue::{CQueue, EventHandle};
 use std::panic::{catch_unwind, AssertUnwindSafe};
 use std::time::Duration;
 
-pub fn run_line(nums: &[u64]) -> Vec<u64> {
+fn main() {
+    implrun::run_main(run_line)
+}
+
+fn run_line(nums: &[u64]) -> Vec<u64> {
     if nums.len() < 2 || nums[0] == 0 || nums[1] == 0 {
         return vec![7];
     }
